@@ -516,13 +516,17 @@ enum ServerAct {
     BadIterationCount,
     MechanismNotOffered,
     GarbageChallenge,
+    /// the right signature cut short (down to nothing): not a proof
+    TruncatedSignature,
+    /// a signature with bytes appended
+    OverlongSignature,
 }
 
 pub async fn run_scripted_server() {
     let mech = pick(&[Mech::Plain, Mech::Sha1, Mech::Sha256, Mech::Sha512]);
     let scram = mech != Mech::Plain;
     let act = if scram {
-        match choice(14) {
+        match choice(16) {
             0 | 1 => ServerAct::Honest,
             2 => ServerAct::OutcomeNotOk(1 + choice(4) as u8),
             3 => ServerAct::NonceNotExtended,
@@ -535,6 +539,8 @@ pub async fn run_scripted_server() {
             10 => ServerAct::BadIterationCount,
             11 => ServerAct::MechanismNotOffered,
             12 => ServerAct::GarbageChallenge,
+            13 => ServerAct::TruncatedSignature,
+            14 => ServerAct::OverlongSignature,
             _ => ServerAct::OutcomeNotOk(pick(&[5u8, 99, 255])),
         }
     } else {
@@ -626,6 +632,15 @@ pub async fn run_scripted_server() {
                             }
                             ServerAct::SignatureWithOtherPassword => scram_proofs(mech, "guess", &salt, iters, &auth_message).server_signature,
                             ServerAct::SignatureOverOtherSalt => scram_proofs(mech, PASS, b"another salt", iters, &auth_message).server_signature,
+                            ServerAct::TruncatedSignature => {
+                                let n = pick(&[0usize, 0, 1, good.server_signature.len() / 2, good.server_signature.len() - 1]);
+                                good.server_signature[..n].to_vec()
+                            }
+                            ServerAct::OverlongSignature => {
+                                let mut s = good.server_signature.clone();
+                                s.extend_from_slice(&[0u8; 3][..1 + choice(3) as usize]);
+                                s
+                            }
                             _ => good.server_signature.clone(),
                         };
                         let data = format!("v={}", b64(&sig)).into_bytes();
@@ -848,4 +863,122 @@ pub async fn run_pipelined_client() {
         }
         sim::probe("pipelined-wrong-password-refused");
     }
+}
+
+// ---------------------------------------------------------------------------------------
+// (e) replay: a peer that has seen one successful SCRAM exchange on the wire (it knows neither
+// the password nor the salted keys) sends the very same sasl-init and sasl-response to the same
+// acceptor on a second connection. It has not completed an exchange with valid credentials: the
+// listener's own contribution to the exchange (its nonce) is new, so the recorded proof is not
+// a proof over this exchange.
+
+pub async fn run_replay_client() {
+    let mech = pick(&[Mech::Sha1, Mech::Sha256, Mech::Sha512]);
+    let (nab, nba, nd) = world::draw_net(false);
+    sim::set_config(format!("variant=replayed-exchange listener-mechanism={} {}", mech.name(), nd));
+    sim::mark_nontrivial();
+    sim::set_panic_is_violation(true);
+    let listener = listener_for(mech);
+    let cnonce: String = (0..18).map(|_| (b'a' + choice(26) as u8) as char).collect();
+    let bare = format!("n={},r={}", USER, cnonce);
+    let first = format!("n,,{}", bare);
+    // ---- first connection: an honest exchange, recorded
+    let (ps, ls, net) = SimStream::pair("peer", "listener", nab.clone(), nba.clone());
+    let _mon = wire::install(&net, ["peer", "listener"], [Models::none(), Models::none()]);
+    let mut peer = Peer::new("peer", ps);
+    let accept1 = sim::in_group(2, async { listener.accept(ls).await });
+    let script1 = async {
+        peer.send_header(SASL_HEADER).await;
+        peer.expect_header().await?;
+        next_sasl(&mut peer, 60_000).await?;
+        peer.send_sasl(&sasl_init(mech.name(), Some(first.clone().into_bytes()))).await;
+        let (code, ch) = next_sasl(&mut peer, 60_000).await?;
+        if code != SASL_CHALLENGE {
+            return None;
+        }
+        let server_first = String::from_utf8_lossy(&bin_of(ch.field(0)).unwrap_or_default()).to_string();
+        let nonce = attr(&server_first, 'r').unwrap_or("").to_string();
+        let salt = attr(&server_first, 's').and_then(unb64).unwrap_or_default();
+        let iters: u32 = attr(&server_first, 'i').and_then(|s| s.parse().ok()).unwrap_or(1);
+        let without_proof = format!("c=biws,r={}", nonce);
+        let auth_message = format!("{},{},{}", bare, server_first, without_proof);
+        let proofs = scram_proofs(mech, PASS, &salt, iters.min(100_000), &auth_message);
+        let final_msg = format!("{},p={}", without_proof, b64(&proofs.client_proof));
+        peer.send_sasl(&sasl_response(final_msg.clone().into_bytes())).await;
+        let (code, o) = next_sasl(&mut peer, 60_000).await?;
+        if code != SASL_OUTCOME || o.field(0).as_u32() != Some(0) {
+            return None;
+        }
+        peer.send_header(AMQP_HEADER).await;
+        peer.send(0, &peer::open("honest", None, None, None)).await;
+        peer.expect_header().await?;
+        peer.expect(wire::OPEN).await?;
+        peer.send(0, &peer::close(None)).await;
+        let _ = peer.drain_for(1000).await;
+        peer.shutdown().await;
+        Some((nonce, final_msg))
+    };
+    let (a1, rec) = match sim::op("honest exchange", world::join2(accept1, script1)).await {
+        Some(x) => x,
+        None => return,
+    };
+    let (nonce1, final_msg) = match (a1, rec) {
+        (Ok(mut h), Some(r)) => {
+            let _ = tokio::time::timeout(std::time::Duration::from_secs(30), h.on_close()).await;
+            r
+        }
+        (a, r) => {
+            sim::violation("honest-client-refused", format!("the recorded honest exchange failed: accept {:?}, script completed {}", a.map(|_| ()), r.is_some()));
+            return;
+        }
+    };
+    // ---- second connection to the same acceptor: the recording, byte for byte
+    sim::fault("recorded-exchange-replayed");
+    let (ps2, ls2, net2) = SimStream::pair("peer", "listener", nab, nba);
+    let _mon2 = wire::install(&net2, ["peer", "listener"], [Models::none(), Models::none()]);
+    let mut peer2 = Peer::new("peer", ps2);
+    let accept2 = sim::in_group(2, async { listener.accept(ls2).await });
+    let script2 = async {
+        let mut saw_ok = false;
+        let mut nonce2 = String::new();
+        peer2.send_header(SASL_HEADER).await;
+        let _ = peer2.expect_header().await;
+        let _ = next_sasl(&mut peer2, 60_000).await;
+        peer2.send_sasl(&sasl_init(mech.name(), Some(first.clone().into_bytes()))).await;
+        if let Some((SASL_CHALLENGE, ch)) = next_sasl(&mut peer2, 60_000).await {
+            let server_first = String::from_utf8_lossy(&bin_of(ch.field(0)).unwrap_or_default()).to_string();
+            nonce2 = attr(&server_first, 'r').unwrap_or("").to_string();
+            peer2.send_sasl(&sasl_response(final_msg.clone().into_bytes())).await;
+            if let Some((SASL_OUTCOME, o)) = next_sasl(&mut peer2, 60_000).await {
+                saw_ok = o.field(0).as_u32() == Some(0);
+            }
+        }
+        if saw_ok {
+            peer2.send_header(AMQP_HEADER).await;
+            peer2.send(0, &peer::open("replayer", None, None, None)).await;
+            let _ = peer2.drain_for(2000).await;
+        } else {
+            let _ = peer2.drain_for(1000).await;
+        }
+        peer2.shutdown().await;
+        (saw_ok, nonce2)
+    };
+    let (a2, (saw_ok, nonce2)) = match sim::op("replayed exchange", world::join2(accept2, script2)).await {
+        Some(x) => x,
+        None => return,
+    };
+    if saw_ok || a2.is_ok() {
+        sim::violation(
+            "replayed-exchange-accepted",
+            format!(
+                "a recorded sasl-init and sasl-response were replayed on a second connection by a peer that does not know the password: outcome ok={} accept={:?} (challenge nonce of the recorded exchange {:?}, of this one {:?})",
+                saw_ok,
+                a2.as_ref().map(|_| ()),
+                nonce1,
+                nonce2
+            ),
+        );
+        return;
+    }
+    sim::probe("replayed-exchange-refused");
 }
